@@ -124,6 +124,25 @@ class TableFilter:
         return bool((self.k >> ((7 * self.ad.lname(link) + code) % 64)) & 1)
 
 
+class ReentrantTableFilter(TableFilter):
+    """a read-only callback that itself QUERIES the library while it is being consulted: before answering from
+    its table it asks for the neighbours (other settings, no filter) of the vertex that is being expanded and of
+    the candidate.  Legal — it changes nothing — but with caching on it makes the memo of the expanded vertex
+    change hands in the middle of the outer computation."""
+
+    def __call__(self, *args):
+        from edgegraph.traversal import helpers as _h
+        link = args[0]
+        x = args[1] if len(args) > 1 else None
+        for v in (x,) + tuple(getattr(link, "vertices", ())[:2]):
+            if v is not None:
+                try:
+                    _h.neighbors(v, _h.DIR_SENS_ANY, _h.LNK_UNKNOWN_NEIGHBOR)
+                except Exception:  # noqa: BLE001   (half-assigned edges, n-ary links: not this callback's business)
+                    pass
+        return super().__call__(*args)
+
+
 def plain_filter(ad, k):
     """filter number k as a PLAIN function without a closure — the loop idiom `lambda e, v, k=k: …`:
     all such filters share ONE code object and differ only in their default values"""
@@ -319,6 +338,8 @@ class Real:
         if k not in self.filters2:
             if k % 7 == 3 and self.plain_filters and not self.long_lived_filters:
                 self.filters2[k] = plain_filter(self, k)
+            elif k % 11 == 4 and self.plain_filters and not self.long_lived_filters:
+                self.filters2[k] = ReentrantTableFilter(self, k, 2)
             else:
                 self.filters2[k] = (FalsyTableFilter if k % 3 == 1 else TableFilter)(self, k, 2)
         return self.filters2[k]
@@ -331,6 +352,8 @@ class Real:
         if k not in self.filters1:
             if k % 7 == 3 and self.plain_filters and not self.long_lived_filters:
                 self.filters1[k] = plain_filter(self, k)
+            elif k % 11 == 4 and self.plain_filters and not self.long_lived_filters:
+                self.filters1[k] = ReentrantTableFilter(self, k, 1)
             else:
                 self.filters1[k] = (FalsyTableFilter if k % 3 == 1 else TableFilter)(self, k, 1)
         return self.filters1[k]
